@@ -63,6 +63,22 @@ def _mk(rng, **force):
                                                   'cm_dtype', 'alf_samples', 'tmpl_dtype')})
     files = ds['files']
     ns = sem['n_spikes']
+    if o['names'] == 'alf' and not o['alf_samples'] and o.get('frac', rng.random() < 0.6):
+        # stored seconds that fall between samples: round(times * rate) must round half to even
+        tn = [n for n in files if n.startswith('spikes.times')][0]
+        fr = sorted(s + rng.choice([0, 0.25, 0.5, 0.5, 0.75]) for s in sem['spike_samples'])
+        files[tn]['data'] = [x / sem['rate'] for x in fr]
+    if o.get('both', rng.random() < 0.15):
+        # both naming conventions present for some attributes, with different contents: the documented
+        # priority (KS name first) decides
+        nc = sem['n_channels']
+        lab = ('.' + o['label']) if o['label'] else ''
+        files['amplitudes.npy'] = {'dtype': 'float64', 'shape': [ns], 'data': [float(rng.randint(1, 9)) for _ in range(ns)]}
+        files['spikes.amps%s.npy' % lab] = {'dtype': 'float64', 'shape': [ns], 'data': [float(rng.randint(1, 9)) for _ in range(ns)]}
+        files['channel_shanks.npy'] = {'dtype': 'int32', 'shape': [nc], 'data': [rng.randrange(3) for _ in range(nc)]}
+        files['channels.shanks%s.npy' % lab] = {'dtype': 'int32', 'shape': [nc], 'data': [rng.randrange(3) for _ in range(nc)]}
+        files['channel_probe.npy'] = {'dtype': 'int32', 'shape': [nc], 'data': [rng.randrange(3) for _ in range(nc)]}
+        files['channels.probes%s.npy' % lab] = {'dtype': 'int32', 'shape': [nc], 'data': [rng.randrange(3) for _ in range(nc)]}
     if o['attrs']:
         files['spike_foo.npy'] = {'dtype': 'float64', 'shape': [ns, 1] if o['vec2d'] else [ns],
                                   'data': [float(rng.randint(-5, 5)) for _ in range(ns)]}
@@ -112,7 +128,8 @@ def generate(tier, rng):
              probes=False, similar=False, raw=False),                                # every optional file absent
         dict(names='ks', nan_template=True, nonmono=False),                          # all-NaN template (memmap r+)
         dict(names='ks', nonmono=True), dict(names='alf', nonmono=True, alf_samples=False),
-        dict(names='alf', alf_samples=False, write_clusters=True),
+        dict(names='alf', alf_samples=False, write_clusters=True, frac=True),
+        dict(names='alf', both=True), dict(names='ks', both=True),
         dict(names='ks', raw=True, vec2d=True), dict(names='ks', whitening='tri', write_wmi=False),
         dict(names='ks', whitening='perm2', write_wmi=True),
     ]:
